@@ -84,6 +84,23 @@ CHECKS["C06"] = dict(
     engine="tlc+replay+trace-validation",
 )
 
+CHECKS["C04"] = dict(
+    built=True,
+    category="model_checking",
+    technique="TLA+ spec J2O_DimExpr: the integer ONNX program emitted for each dimension expression (extracted node by node from real exports) is executed by TLC with ONNX integer semantics for every symbol binding and compared with the expression's mathematical value; the same exports and symbolic templates run in ORT at every binding vs JAX eager",
+    text=(
+        "For ~240 (quick) / ~700 (thorough) dimension expressions (sums, products, powers, floor division and remainder with constant and symbolic divisors, "
+        "negative numerators, max/min, depth <= 3, two symbols) the real converter's emitted Shape/Mul/Add/Pow/Div/Mod/... subgraph is extracted from a real export "
+        "and becomes a TLA+ constant; TLC executes it one ONNX node per step for all 25 bindings in {1,2,3,5,7}^2 and requires the AST's value (floor semantics). "
+        "The exports are also run in ORT at every binding (three-way: ORT = JAX eager = mathematics). 15 templates that use symbolic dims in reshapes of two symbols, "
+        "arange, broadcast, slicing, loop bodies, while predicates, @onnx_function bodies, shared symbols and NCHW inputs are exported once and run at up to 24 bindings; "
+        "dynamic corpus testcases run at bindings {1,2,3,5,7} against JAX shapes."
+    ),
+    note="Trusted: ORT integer kernels, TLC. Bindings beyond 11 are not explored; expressions the interpreter cannot read (ops outside its vocabulary) are still judged by ORT vs JAX.",
+    design_ref="DESIGN.md §2 J2O_DimExpr, §3 C04",
+    engine="tlc+translation-validation+ort",
+)
+
 TITLES = {}
 for line in (VERIF / "properties.jsonl").read_text().splitlines():
     if line.strip():
